@@ -221,3 +221,18 @@ def _assigned_unconditionally_before(loop: ast.For, name: str, site: ast.AST) ->
         if isinstance(s, ast.Assign) and any(isinstance(t, ast.Name) and t.id == name for t in s.targets):
             return True
     return False
+
+
+_run_base = run
+
+
+def run(repo: Repo, rep: Report) -> None:  # noqa: F811
+    _run_base(repo, rep)
+    from vlib import argswap
+
+    rep.rule("C06.f-no-swapped-graph-arguments",
+             "in the quad parsers and serializers (where `dataset`, `graph`, `context` arguments all have type Graph), a call that passes two local names which are also parameter "
+             "names of the resolved callee passes each at its own parameter's position: `self._to_object(graph, dataset, ...)` for `_to_object(self, dataset, graph, ...)` type-checks "
+             "and makes nested values land in the dataset-wide graph instead of the named graph", floor=20)
+    mods = sorted(m for m in repo.modules if m.startswith("rdflib.plugins.parsers.") or m.startswith("rdflib.plugins.serializers.") or m.startswith("rdflib.plugins.shared.jsonld."))
+    argswap.scan(repo, rep, "C06.f-no-swapped-graph-arguments", mods)
